@@ -22,7 +22,55 @@ use crate::wrap::{Wrap, WrapShared};
 enum Ch {
     Ping(TransientSource<PingSource>),
     Sock(TransientSource<Generic<SharedFd>>),
-    Timer(TransientSource<Timer>),
+    Timer(TransientSource<MaybeTimer>),
+}
+
+/// A user-written sub-source: a timer that registers nothing at all while it is parked.
+pub struct MaybeTimer {
+    t: Timer,
+    armed: bool,
+}
+
+impl EventSource for MaybeTimer {
+    type Event = std::time::Instant;
+    type Metadata = ();
+    type Ret = TimeoutAction;
+    type Error = std::io::Error;
+
+    fn process_events<F>(&mut self, readiness: Readiness, token: Token, callback: F) -> Result<PostAction, std::io::Error>
+    where
+        F: FnMut(std::time::Instant, &mut ()) -> TimeoutAction,
+    {
+        if self.armed {
+            self.t.process_events(readiness, token, callback)
+        } else {
+            Ok(PostAction::Continue)
+        }
+    }
+
+    fn register(&mut self, poll: &mut Poll, tf: &mut TokenFactory) -> calloop::Result<()> {
+        if self.armed {
+            self.t.register(poll, tf)
+        } else {
+            Ok(())
+        }
+    }
+
+    fn reregister(&mut self, poll: &mut Poll, tf: &mut TokenFactory) -> calloop::Result<()> {
+        if self.armed {
+            self.t.reregister(poll, tf)
+        } else {
+            Ok(())
+        }
+    }
+
+    fn unregister(&mut self, poll: &mut Poll) -> calloop::Result<()> {
+        if self.armed {
+            self.t.unregister(poll)
+        } else {
+            Ok(())
+        }
+    }
 }
 
 pub struct CompSrc {
@@ -83,6 +131,14 @@ impl EventSource for CompSrc {
     }
 
     fn reregister(&mut self, poll: &mut Poll, tf: &mut TokenFactory) -> calloop::Result<()> {
+        if let Some((i, ns)) = self.sh.arm_child.take() {
+            if let Some(Ch::Timer(t)) = self.children.get_mut(i) {
+                t.map(|m| {
+                    m.armed = true;
+                    m.t.set_duration(std::time::Duration::from_nanos(ns))
+                });
+            }
+        }
         for c in self.children.iter_mut() {
             match c {
                 Ch::Ping(p) => p.reregister(poll, tf)?,
@@ -108,7 +164,7 @@ impl EventSource for CompSrc {
 pub enum ChildM {
     Ping { handle: Option<Ping>, pending: bool, closed: bool },
     Sock { own: SharedFd, peer: Option<OwnedFd>, written: bool },
-    Timer { deadline: Option<u64>, fired: bool },
+    Timer { deadline: Option<u64>, fired: bool, user_parked: bool },
 }
 
 pub struct CompK {
@@ -132,6 +188,14 @@ pub fn insert_composite(sim: &Sim, id: Id, specs: &[ChildSpec], script: &Script)
                 children.push(Ch::Ping(src.into()));
                 models.push(ChildM::Ping { handle: Some(p), pending: false, closed: false });
             }
+            ChildSpec::ParkedTimer => {
+                children.push(Ch::Timer(MaybeTimer { t: Timer::from_duration(std::time::Duration::MAX), armed: true }.into()));
+                models.push(ChildM::Timer { deadline: None, fired: false, user_parked: false });
+            }
+            ChildSpec::MaybeTimer => {
+                children.push(Ch::Timer(MaybeTimer { t: Timer::from_duration(std::time::Duration::MAX), armed: false }.into()));
+                models.push(ChildM::Timer { deadline: None, fired: false, user_parked: true });
+            }
             ChildSpec::Sock | ChildSpec::SameFd => {
                 let (a, b) = os::socketpair();
                 let own = SharedFd(Rc::new(a));
@@ -145,8 +209,8 @@ pub fn insert_composite(sim: &Sim, id: Id, specs: &[ChildSpec], script: &Script)
                     Deadline::In(d) => (Timer::from_duration(std::time::Duration::from_nanos(*d)), sim.now_ns().checked_add(*d)),
                     Deadline::At(t) => (Timer::from_deadline(sim.instant_at(*t)), Some(*t)),
                 };
-                children.push(Ch::Timer(t.into()));
-                models.push(ChildM::Timer { deadline: d, fired: false });
+                children.push(Ch::Timer(MaybeTimer { t, armed: true }.into()));
+                models.push(ChildM::Timer { deadline: d, fired: false, user_parked: false });
             }
         }
     }
@@ -189,7 +253,7 @@ fn on_child(id: Id, child: usize, tag: &mut Tag) {
                         *written = false;
                         r
                     }
-                    Some(ChildM::Timer { deadline, fired }) => {
+                    Some(ChildM::Timer { deadline, fired, .. }) => {
                         let ok = !*fired && deadline.map(|d| d <= now).unwrap_or(false);
                         *fired = true;
                         timer_deadline = *deadline;
@@ -250,11 +314,56 @@ pub fn has_cause(k: &CompK, now: u64) -> bool {
     k.children.iter().any(|c| match c {
         ChildM::Ping { pending, closed, handle } => *pending || (*closed && handle.is_none() && false),
         ChildM::Sock { own, .. } => os::poll_revents(own.0.as_raw_fd()) & (os::PIN | os::PHUP) != 0,
-        ChildM::Timer { deadline, fired } => !*fired && deadline.map(|d| d <= now).unwrap_or(false),
+        ChildM::Timer { deadline, fired, .. } => !*fired && deadline.map(|d| d <= now).unwrap_or(false),
     })
 }
 
 pub fn child_op(sim: &Sim, op: &Op) {
+    if let Op::ArmChildTimer(id, n, ns) = op {
+        // u32::MAX: whichever child is a parked timer
+        let n = &if *n == u32::MAX {
+            match sim.st.borrow().srcs.get(id).map(|s| &s.k) {
+                Some(K::Comp(k)) => k.children.iter().position(|c| matches!(c, ChildM::Timer { deadline: None, fired: false, .. })).unwrap_or(0) as u32,
+                _ => 0,
+            }
+        } else {
+            *n
+        };
+        let sh = {
+            let st = sim.st.borrow();
+            let Some(s) = st.srcs.get(id) else { return };
+            let K::Comp(k) = &s.k else { return };
+            if !(s.inserted && s.enabled) || s.indeterminate || s.in_processing > 0 {
+                return;
+            }
+            // only a timer that was parked from the start and never armed
+            match k.children.get(*n as usize) {
+                Some(ChildM::Timer { deadline: None, fired: false, user_parked }) => {
+                    if *user_parked && sim.hk.borrow().in_dispatch {
+                        return;
+                    }
+                }
+                _ => return,
+            }
+            s.sh.clone()
+        };
+        sh.arm_child.set(Some((*n as usize, *ns)));
+        let in_cb = sim.hk.borrow().in_dispatch;
+        crate::ops::exec_op(sim, &Op::Update(*id), in_cb);
+        if sh.arm_child.take().is_none() {
+            // the re-registration took place: the child is armed from now on
+            let now = sim.now_ns();
+            let mut st = sim.st.borrow_mut();
+            if let Some(K::Comp(k)) = st.srcs.get_mut(id).map(|s| &mut s.k) {
+                if let Some(ChildM::Timer { deadline, .. }) = k.children.get_mut(*n as usize) {
+                    *deadline = now.checked_add(*ns);
+                }
+            }
+            drop(st);
+            sim.probe("composite_parked_timer_armed");
+        }
+        return;
+    }
     let mut st = sim.st.borrow_mut();
     match op {
         Op::PingChild(id, n) => {
